@@ -15,17 +15,22 @@
 (* the queue is one FIFO per type, lowest type first.                      *)
 (* Register(d): discovery.register_computation fires the one-shot          *)
 (* callbacks, Messaging._on_computation_registration re-posts the failed   *)
-(* messages for d in list order.  Shutdown = Agent.clean_shutdown();       *)
-(* the loop exits when it finds the queue empty after that.                *)
+(* messages for d in list order.  Shutdown = Agent.clean_shutdown().        *)
+(* The agent loop (Agent._run) is two steps: a poll of the queue (a        *)
+(* message is handled, or the poll times out: apc = "check") and, after a  *)
+(* timed-out poll, the test of the shutdown flag.  Messages can be posted  *)
+(* and the shutdown requested between the two: with Repoll (the repaired   *)
+(* code) the loop polls once more before exiting.                          *)
 (***************************************************************************)
 EXTENDS Orders, TLC, Json
 CONSTANTS Posters,     \* set of thread ids (1, 2, ...)
           Scripts,     \* [Posters -> Seq([dest, ty])]
           Dests, LateDests, Types,
-          Recheck      \* TRUE: post_msg looks the destination up again after deferring a message (the repaired code)
+          Recheck,     \* TRUE: post_msg looks the destination up again after deferring a message (the repaired code)
+          Repoll       \* TRUE: after a timed-out poll, a shutdown request makes the loop poll again before it exits (repaired)
 
-VARIABLES pc, idx, known, cbs, failed, q, shut, exited, handled, dropped, beforeShut, minOk, act
-impl == <<pc, idx, known, cbs, failed, q, shut, exited>>
+VARIABLES pc, idx, known, cbs, failed, q, shut, exited, apc, handled, dropped, beforeShut, minOk, act
+impl == <<pc, idx, known, cbs, failed, q, shut, exited, apc>>
 hist == <<handled, dropped, beforeShut, minOk>>
 vars == <<impl, hist, act>>
 
@@ -36,7 +41,7 @@ Cur(p) == Mid(p, idx[p])
 
 Init == /\ pc = [p \in Posters |-> "idle"] /\ idx = [p \in Posters |-> 1]
         /\ known = Dests \ LateDests /\ cbs = {} /\ failed = <<>>
-        /\ q = [t \in Types |-> <<>>] /\ shut = FALSE /\ exited = FALSE
+        /\ q = [t \in Types |-> <<>>] /\ shut = FALSE /\ exited = FALSE /\ apc = "poll"
         /\ handled = <<>> /\ dropped = {} /\ beforeShut = {} /\ minOk = TRUE
         /\ act = [n |-> "init"]
 
@@ -50,22 +55,22 @@ Begin(p) == /\ pc[p] = "idle" /\ ~Done(p)
             /\ IF shut THEN /\ dropped' = dropped \cup {Cur(p)} /\ Advance(p)
                        ELSE /\ pc' = [pc EXCEPT ![p] = "lookup"] /\ UNCHANGED <<idx, dropped>>
             /\ act' = [n |-> "begin", p |-> p, m |-> Cur(p)]
-            /\ UNCHANGED <<known, cbs, failed, q, shut, exited, handled, beforeShut, minOk>>
+            /\ UNCHANGED <<known, cbs, failed, q, shut, exited, apc, handled, beforeShut, minOk>>
 Lookup(p) == /\ pc[p] = "lookup"
              /\ pc' = [pc EXCEPT ![p] = IF Msg(Cur(p)).dest \in known THEN "put" ELSE "sub"]
              /\ act' = [n |-> "lookup", p |-> p, m |-> Cur(p)]
-             /\ UNCHANGED <<idx, known, cbs, failed, q, shut, exited, hist>>
+             /\ UNCHANGED <<idx, known, cbs, failed, q, shut, exited, apc, hist>>
 Put(p) == /\ pc[p] = "put"
           /\ q' = Enqueue(q, Cur(p))
           /\ beforeShut' = IF shut THEN beforeShut ELSE beforeShut \cup {Cur(p)}
           /\ Advance(p)
           /\ act' = [n |-> "put", p |-> p, m |-> Cur(p)]
-          /\ UNCHANGED <<known, cbs, failed, shut, exited, handled, dropped, minOk>>
+          /\ UNCHANGED <<known, cbs, failed, shut, exited, apc, handled, dropped, minOk>>
 Sub(p) == /\ pc[p] = "sub"
           /\ cbs' = cbs \cup {Msg(Cur(p)).dest}
           /\ pc' = [pc EXCEPT ![p] = "fail"]
           /\ act' = [n |-> "sub", p |-> p, m |-> Cur(p)]
-          /\ UNCHANGED <<idx, known, failed, q, shut, exited, hist>>
+          /\ UNCHANGED <<idx, known, failed, q, shut, exited, apc, hist>>
 \* the failed messages for destination d, in list order, and the others
 ForDest(d) == SelectSeq(failed, LAMBDA m : Msg(m).dest = d)
 NotForDest(d) == SelectSeq(failed, LAMBDA m : Msg(m).dest # d)
@@ -85,7 +90,7 @@ Fail(p) == /\ pc[p] = "fail"
               ELSE /\ failed' = f2 /\ UNCHANGED <<q, beforeShut, dropped>>
            /\ Advance(p)
            /\ act' = [n |-> "fail", p |-> p, m |-> Cur(p)]
-           /\ UNCHANGED <<known, cbs, shut, exited, handled, minOk>>
+           /\ UNCHANGED <<known, cbs, shut, exited, apc, handled, minOk>>
 
 \* a late computation is registered on the agent (deployment): callbacks fire only if some post subscribed before
 Register(d) == /\ d \in LateDests \ known
@@ -100,28 +105,44 @@ Register(d) == /\ d \in LateDests \ known
                /\ cbs' = cbs \ {d}
                /\ dropped' = IF d \in cbs /\ shut THEN dropped \cup {m \in AllMids : InSeq(ForDest(d), m)} ELSE dropped
                /\ act' = [n |-> "register", d |-> d]
-               /\ UNCHANGED <<pc, idx, shut, exited, handled, minOk>>
+               /\ UNCHANGED <<pc, idx, shut, exited, apc, handled, minOk>>
 
 QueuedTypes == {t \in Types : q[t] # <<>>}
 MinType == CHOOSE t \in QueuedTypes : \A u \in QueuedTypes : t <= u
-\* one iteration of the agent loop
+\* the agent loop fetches and handles the first message of the lowest queued type
+Fetch == LET t == MinType  m == Head(q[t]) IN
+         /\ q' = [q EXCEPT ![t] = Tail(@)]
+         /\ handled' = Append(handled, m)
+         /\ minOk' = (minOk /\ \A u \in QueuedTypes : t <= u)
+         /\ act' = [n |-> "next", m |-> m]
+\* next_msg(0.05) returns a message: it is handled
 AgentNext == /\ ~exited /\ QueuedTypes # {}
-             /\ LET t == MinType  m == Head(q[t]) IN
-                /\ q' = [q EXCEPT ![t] = Tail(@)]
-                /\ handled' = Append(handled, m)
-                /\ minOk' = (minOk /\ \A u \in QueuedTypes : t <= u)
-                /\ act' = [n |-> "next", m |-> m]
+             /\ \/ apc = "poll"
+                \/ (apc = "check" /\ shut /\ Repoll)       \* repaired loop: second poll after a shutdown request
+             /\ Fetch /\ apc' = "poll"
              /\ UNCHANGED <<pc, idx, known, cbs, failed, shut, exited, dropped, beforeShut>>
+\* next_msg(0.05) times out: the loop is now between the poll and the test of the shutdown flag
+AgentIdle == /\ ~exited /\ apc = "poll" /\ QueuedTypes = {}
+             /\ apc' = "check"
+             /\ act' = [n |-> "idle"]
+             /\ UNCHANGED <<pc, idx, known, cbs, failed, q, shut, exited, hist>>
+\* no shutdown requested: next iteration
+AgentResume == /\ ~exited /\ apc = "check" /\ ~shut
+               /\ apc' = "poll"
+               /\ act' = [n |-> "resume"]
+               /\ UNCHANGED <<pc, idx, known, cbs, failed, q, shut, exited, hist>>
 Shutdown == /\ ~shut /\ shut' = TRUE
             /\ act' = [n |-> "shutdown"]
-            /\ UNCHANGED <<pc, idx, known, cbs, failed, q, exited, hist>>
-LoopExit == /\ shut /\ ~exited /\ QueuedTypes = {}
+            /\ UNCHANGED <<pc, idx, known, cbs, failed, q, exited, apc, hist>>
+\* shutdown requested: the loop exits - without Repoll even if messages were queued since the poll timed out
+LoopExit == /\ shut /\ ~exited /\ apc = "check"
+            /\ (Repoll => QueuedTypes = {})
             /\ exited' = TRUE
             /\ act' = [n |-> "exit"]
-            /\ UNCHANGED <<pc, idx, known, cbs, failed, q, shut, hist>>
+            /\ UNCHANGED <<pc, idx, known, cbs, failed, q, shut, apc, hist>>
 
 Next == (\E p \in Posters : Begin(p) \/ Lookup(p) \/ Put(p) \/ Sub(p) \/ Fail(p))
-        \/ (\E d \in LateDests : Register(d)) \/ AgentNext \/ Shutdown \/ LoopExit
+        \/ (\E d \in LateDests : Register(d)) \/ AgentNext \/ AgentIdle \/ AgentResume \/ Shutdown \/ LoopExit
 Spec == Init /\ [][Next]_vars
 
 \* ---- the property (C18) -------------------------------------------------
@@ -153,7 +174,7 @@ QSeqOf(T) == IF T = {} THEN <<>> ELSE LET t == CHOOSE x \in T : \A u \in T : x <
 \* (injective on the implementation variables: the replay walks the graph of projections)
 Proj == [pc |-> [p \in Posters |-> pc[p]], idx |-> [p \in Posters |-> idx[p]], known |-> known, cbs |-> cbs,
          failed |-> failed, queue |-> QSeqOf(Types),
-         handled |-> handled, shut |-> shut, exited |-> exited]
+         handled |-> handled, shut |-> shut, exited |-> exited, apc |-> apc]
 Edge == PrintT(<<"EDGE", ToJson(Proj), ToJson(act'), ToJson(Proj')>>)
 View == <<impl, hist>>
 ====
